@@ -1936,3 +1936,151 @@ Proof.
   pose proof (get_fd_out s k) as H2. destruct (snd (get_fd s k)) eqn:E2; simpl; try contradiction; [|rewrite E2; exact H2].
   apply get_open_out.
 Qed.
+
+(* ------------------------------------------------------------------------------------------ *)
+(* the history variable w_acc really is the concatenation of the writer's Writes                *)
+(* ------------------------------------------------------------------------------------------ *)
+Lemma writers_dc_apply s c dv : writers (dc_apply s c dv) = writers s.
+Proof. unfold dc_apply. destruct (recycle_all_spec (map (fun i => nth i dv 0) (finalised (dc s) c)) (set_dc s c dv)) as (_ & _ & _ & _ & _ & _ & A7 & _). exact A7. Qed.
+Lemma writers_fc_apply s c fv : writers (fc_apply s c fv) = writers s.
+Proof. unfold fc_apply. destruct (close_all_spec (map (fun j => nth j fv 0) (finalised (fc s) c)) (set_fc s c fv)) as (_ & _ & _ & _ & _ & _ & _ & A8 & _). exact A8. Qed.
+Lemma close_fd_writers s f : writers (close_fd s f) = writers s.
+Proof. unfold close_fd. destruct (nth_error (fds s) f) as [[w op]|]; reflexivity. Qed.
+
+Definition acc_step (o : op) (w : nat) (wr wr' : writer) : Prop :=
+  w_key wr' = w_key wr /\
+  (w_acc wr' = w_acc wr \/ exists bs, o = Write w bs /\ w_status wr = WOpen /\ w_acc wr' = w_acc wr ++ bs).
+
+Lemma acc_upd (ws : list writer) o w0 wr0 wr1 w wr wr' :
+  nth_error ws w0 = Some wr0 -> w_key wr1 = w_key wr0 -> w_acc wr1 = w_acc wr0 ->
+  nth_error ws w = Some wr -> nth_error (R.upd ws w0 wr1) w = Some wr' -> acc_step o w wr wr'.
+Proof.
+  intros H0 Hk Ha Hw Hw'. apply nth_upd_cases in Hw'. destruct Hw' as [(-> & -> & _)|[_ Hw']].
+  - rewrite H0 in Hw. inv Hw. split; auto.
+  - rewrite Hw in Hw'. inv Hw'. split; auto.
+Qed.
+
+Lemma acc_same (ws : list writer) o w wr wr' : nth_error ws w = Some wr -> nth_error ws w = Some wr' -> acc_step o w wr wr'.
+Proof. intros H H'. rewrite H in H'. inv H'. split; auto. Qed.
+
+Lemma acc_app (ws : list writer) o x w wr wr' : nth_error ws w = Some wr -> nth_error (ws ++ [x]) w = Some wr' -> acc_step o w wr wr'.
+Proof. intros H H'. rewrite nth_error_app1 in H' by (eapply RP.nth_some_lt; eauto). eapply acc_same; eauto. Qed.
+
+Ltac acc_u H0 Hw := let H' := fresh "H'" in intros H'; eapply acc_upd; [exact H0| | |exact Hw|exact H']; reflexivity.
+Ltac acc_s Hw := let H' := fresh "H'" in intros H'; eapply acc_same; [exact Hw|exact H'].
+
+Lemma step_acc s o w wr wr' :
+  nth_error (writers s) w = Some wr -> nth_error (writers (fst (step s o))) w = Some wr' -> acc_step o w wr wr'.
+Proof.
+  intros Hw. destruct o; simpl.
+  - unfold do_add. destruct direct; simpl; [apply acc_app; exact Hw|]. unfold take_buf.
+    destruct pick as [b|]; [destruct (existsb _ _)|]; simpl; apply acc_app; exact Hw.
+  - unfold do_write. destruct (nth_error (writers s) w0) as [wr0|] eqn:H0; [|acc_s Hw].
+    destruct (w_active wr0) eqn:Ha; [|acc_s Hw]. pose proof (active_open _ Ha) as Hop.
+    assert (Hgen : forall wr1, w_key wr1 = w_key wr0 -> w_acc wr1 = w_acc wr0 ++ bs ->
+                     nth_error (R.upd (writers s) w0 wr1) w = Some wr' -> acc_step (Write w0 bs) w wr wr').
+    { intros wr1 Hk Ha1 H. apply nth_upd_cases in H. destruct H as [(-> & -> & _)|[_ H]].
+      - rewrite H0 in Hw. inv Hw. split; [exact Hk|]. right. exists bs. auto.
+      - rewrite Hw in H. inv H. split; auto. }
+    destruct (w_buf wr0); simpl; apply Hgen; reflexivity.
+  - unfold do_commit. destruct (nth_error (writers s) w0) as [wr0|] eqn:H0; [|acc_s Hw].
+    destruct (w_active wr0); [|acc_s Hw].
+    destruct (w_buf wr0) as [b|]; [|simpl; acc_u H0 Hw].
+    destruct (R.step _ _) as [c' [[i added]|]]; [|acc_s Hw].
+    assert (Hl : w0 < length (writers s)) by (eapply RP.nth_some_lt; eauto).
+    destruct added; simpl; rewrite writers_dc_apply; simpl; rewrite RP.upd_upd; acc_u H0 Hw.
+  - unfold do_pwrite. destruct (nth_error (writers s) w0) as [wr0|] eqn:H0; [|acc_s Hw].
+    destruct (w_ps wr0) as [|[|?] ? ?]; try (acc_s Hw). simpl. acc_u H0 Hw.
+  - unfold do_pfail. destruct (nth_error (writers s) w0) as [wr0|] eqn:H0; [|acc_s Hw].
+    destruct (w_ps wr0) as [|[|?] ? ?]; try (acc_s Hw). simpl. acc_u H0 Hw.
+  - unfold do_prename. destruct (nth_error (writers s) w0) as [wr0|] eqn:H0; [|acc_s Hw].
+    destruct (w_ps wr0) as [|[|[|?]] ? ?]; try (acc_s Hw). simpl. acc_u H0 Hw.
+  - unfold do_pdone. destruct (nth_error (writers s) w0) as [wr0|] eqn:H0; [|acc_s Hw].
+    destruct (w_ps wr0) as [|[|[|[|?]]] ? ?]; try (acc_s Hw).
+    unfold dc_release. rewrite writers_dc_apply. simpl. acc_u H0 Hw.
+  - unfold do_abort. destruct (nth_error (writers s) w0) as [wr0|] eqn:H0; [|acc_s Hw].
+    destruct (w_active wr0); [|acc_s Hw]. destruct (w_buf wr0); simpl; acc_u H0 Hw.
+  - unfold do_closew. destruct (nth_error (writers s) w0) as [wr0|] eqn:H0; [|acc_s Hw].
+    simpl. acc_u H0 Hw.
+  - assert (Hm : writers (fst (get_mem s k)) = writers s).
+    { unfold get_mem. destruct (R.step _ _) as [c' [[i fl]|]]; simpl; [apply writers_dc_apply|reflexivity]. }
+    assert (Hf : writers (fst (get_fd s k)) = writers s).
+    { unfold get_fd. destruct (R.step _ _) as [c' [[i fl]|]]; simpl; [apply writers_fc_apply|reflexivity]. }
+    assert (Ho : forall d, writers (fst (get_open s k d)) = writers s).
+    { intros d. unfold get_open. destruct (find _ _); reflexivity. }
+    unfold do_get. destruct direct; [rewrite Ho; acc_s Hw|].
+    destruct (is_hit _); [rewrite Hm; acc_s Hw|]. destruct (is_hit _); [rewrite Hf|rewrite Ho]; acc_s Hw.
+  - unfold get_mem. destruct (R.step _ _) as [c' [[i fl]|]]; simpl; [rewrite writers_dc_apply|]; acc_s Hw.
+  - unfold get_fd. destruct (R.step _ _) as [c' [[i fl]|]]; simpl; [rewrite writers_fc_apply|]; acc_s Hw.
+  - unfold get_open. destruct (find _ _); simpl; acc_s Hw.
+  - acc_s Hw.
+  - unfold do_closer. destruct (nth_error (readers s) r) as [rd|]; [|acc_s Hw].
+    destruct (r_open rd); [|acc_s Hw].
+    destruct (r_kind rd) as [b len h|f h|f [|]].
+    + unfold dc_release. rewrite writers_dc_apply. simpl. acc_s Hw.
+    + unfold fc_release. rewrite writers_fc_apply. simpl. acc_s Hw.
+    + unfold fd_put. destruct (R.step _ _) as [c1 [[j added]|]]; [|simpl; acc_s Hw].
+      unfold fc_release. rewrite writers_fc_apply. destruct added; [|rewrite close_fd_writers]; rewrite writers_fc_apply; simpl; acc_s Hw.
+    + rewrite close_fd_writers. simpl. acc_s Hw.
+  - acc_s Hw.
+Qed.
+
+(* a writer is born with an empty accumulator *)
+Lemma step_new_writer s o w wr' :
+  nth_error (writers s) w = None -> nth_error (writers (fst (step s o))) w = Some wr' ->
+  w_acc wr' = [] /\ w_status wr' = WOpen /\ exists k d p, o = Add k d p /\ w_key wr' = k.
+Proof.
+  intros Hn H.
+  assert (Hsame : forall ws, ws = writers s -> nth_error ws w = Some wr' -> False) by (intros ws -> H'; congruence).
+  assert (Hupd : forall w0 x, nth_error (R.upd (writers s) w0 x) w = Some wr' -> False).
+  { intros w0 x H'. apply RP.nth_some_lt in H'. rewrite RP.upd_length in H'. apply nth_error_None in Hn. lia. }
+  assert (Hlen : forall s', length (writers s') = length (writers s) -> nth_error (writers s') w = Some wr' -> False).
+  { intros s' El H'. apply RP.nth_some_lt in H'. apply nth_error_None in Hn. lia. }
+  destruct o; simpl in H.
+  - assert (Hadd : forall x, nth_error (writers s ++ [x]) w = Some wr' -> wr' = x).
+    { intros x H'. destruct (Nat.eq_dec w (length (writers s))) as [->|Hne].
+      - rewrite RP.nth_app_new in H'. inv H'. reflexivity.
+      - rewrite nth_app_other in H' by exact Hne. congruence. }
+    unfold do_add in H. destruct direct.
+    + simpl in H. apply Hadd in H. subst. simpl. eauto 8.
+    + unfold take_buf in H. destruct pick as [b|]; [destruct (existsb _ _)|]; simpl in H; apply Hadd in H; subst; simpl; eauto 8.
+  - exfalso. eapply Hlen; [|exact H]. unfold do_write. destruct (nth_error _ _) as [wr0|]; [|reflexivity].
+    destruct (w_active wr0); [|reflexivity]. destruct (w_buf wr0); simpl; apply RP.upd_length.
+  - exfalso. eapply Hlen; [|exact H]. unfold do_commit. destruct (nth_error _ _) as [wr0|]; [|reflexivity].
+    destruct (w_active wr0); [|reflexivity]. destruct (w_buf wr0); [|simpl; apply RP.upd_length].
+    destruct (R.step _ _) as [c' [[i added]|]]; [|reflexivity].
+    destruct added; simpl; rewrite writers_dc_apply; simpl; rewrite !RP.upd_length; reflexivity.
+  - exfalso. eapply Hlen; [|exact H]. unfold do_pwrite. destruct (nth_error _ _) as [wr0|]; [|reflexivity].
+    destruct (w_ps wr0) as [|[|?] ? ?]; try reflexivity. simpl. apply RP.upd_length.
+  - exfalso. eapply Hlen; [|exact H]. unfold do_pfail. destruct (nth_error _ _) as [wr0|]; [|reflexivity].
+    destruct (w_ps wr0) as [|[|?] ? ?]; try reflexivity. simpl. apply RP.upd_length.
+  - exfalso. eapply Hlen; [|exact H]. unfold do_prename. destruct (nth_error _ _) as [wr0|]; [|reflexivity].
+    destruct (w_ps wr0) as [|[|[|?]] ? ?]; try reflexivity. simpl. apply RP.upd_length.
+  - exfalso. eapply Hlen; [|exact H]. unfold do_pdone. destruct (nth_error _ _) as [wr0|]; [|reflexivity].
+    destruct (w_ps wr0) as [|[|[|[|?]]] ? ?]; try reflexivity. unfold dc_release. rewrite writers_dc_apply. simpl. apply RP.upd_length.
+  - exfalso. eapply Hlen; [|exact H]. unfold do_abort. destruct (nth_error _ _) as [wr0|]; [|reflexivity].
+    destruct (w_active wr0); [|reflexivity]. destruct (w_buf wr0); simpl; apply RP.upd_length.
+  - exfalso. eapply Hlen; [|exact H]. unfold do_closew. destruct (nth_error _ _) as [wr0|]; [|reflexivity]. simpl. apply RP.upd_length.
+  - exfalso. eapply Hlen; [|exact H].
+    assert (Hm : writers (fst (get_mem s k)) = writers s).
+    { unfold get_mem. destruct (R.step _ _) as [c' [[i fl]|]]; simpl; [apply writers_dc_apply|reflexivity]. }
+    assert (Hf : writers (fst (get_fd s k)) = writers s).
+    { unfold get_fd. destruct (R.step _ _) as [c' [[i fl]|]]; simpl; [apply writers_fc_apply|reflexivity]. }
+    assert (Ho : forall d, writers (fst (get_open s k d)) = writers s).
+    { intros d. unfold get_open. destruct (find _ _); reflexivity. }
+    unfold do_get. destruct direct; [rewrite Ho; reflexivity|].
+    destruct (is_hit _); [rewrite Hm; reflexivity|]. destruct (is_hit _); [rewrite Hf|rewrite Ho]; reflexivity.
+  - exfalso. eapply Hlen; [|exact H]. unfold get_mem. destruct (R.step _ _) as [c' [[i fl]|]]; simpl; [rewrite writers_dc_apply|]; reflexivity.
+  - exfalso. eapply Hlen; [|exact H]. unfold get_fd. destruct (R.step _ _) as [c' [[i fl]|]]; simpl; [rewrite writers_fc_apply|]; reflexivity.
+  - exfalso. eapply Hlen; [|exact H]. unfold get_open. destruct (find _ _); reflexivity.
+  - congruence.
+  - exfalso. eapply Hlen; [|exact H]. unfold do_closer. destruct (nth_error (readers s) r) as [rd|]; [|reflexivity].
+    destruct (r_open rd); [|reflexivity].
+    destruct (r_kind rd) as [b len h|f h|f [|]].
+    + unfold dc_release. rewrite writers_dc_apply. reflexivity.
+    + unfold fc_release. rewrite writers_fc_apply. reflexivity.
+    + unfold fd_put. destruct (R.step _ _) as [c1 [[j added]|]]; [|reflexivity].
+      unfold fc_release. rewrite writers_fc_apply. destruct added; [|rewrite close_fd_writers]; rewrite writers_fc_apply; reflexivity.
+    + rewrite close_fd_writers. reflexivity.
+  - congruence.
+Qed.
